@@ -1,7 +1,9 @@
 pub mod c06;
+pub mod c09;
 pub mod c15;
 pub mod c16unit;
 pub mod c17;
+pub mod c19;
 pub mod crashprops;
 pub mod seqprops;
 
@@ -41,6 +43,8 @@ pub fn dispatch(id: &str, tier: Tier, seed: u64, replay: Option<&str>) -> i32 {
         }
         "C06" => c06::run(tier, seed, replay),
         "C17" => c17::run(tier, seed, replay),
+        "C09" => c09::run(tier, seed, replay),
+        "C19" => c19::run(tier, seed, replay),
         "C15" => c15::run(tier, seed, replay),
         "C02" => crashprops::run("C02", tier, seed, replay),
         "C03" => crashprops::run("C03", tier, seed, replay),
